@@ -225,6 +225,13 @@ pub fn gen_cfg(id: &str, tier: Tier, variant: u64) -> GenCfg {
             g.weights.unique_root = 3;
             g
         }
+        // peers whose handles were released without unadopt (over-adopted members)
+        "C16" if variant % 4 == 2 => {
+            let mut g = GenCfg::new(Mode::Elide, ops);
+            g.weights.remove = 12;
+            g.weights.strip = 4;
+            g
+        }
         "C13" => GenCfg::new(Mode::Elide, ops),
         // C02 is stated for "any history"; a quarter of the workers explore the
         // ELIDE domain (elided unadopt is documented as safe), with the known
